@@ -98,9 +98,9 @@ func (c *ChainSt) keeper(w *World) cckeeper.Keeper {
 	panic("unknown chain " + c.Name)
 }
 
-func (c *ChainSt) oracleKey(w *World, i int) *Key  { return w.Key("oracle", OracleKeyIdx(c.CI, i)) }
-func (c *ChainSt) bridgerKey(w *World, i int) *Key { return w.Key("bridger", OracleKeyIdx(c.CI, i)) }
-func (c *ChainSt) extKey(w *World, i int) *Key     { return w.Key("ext", OracleKeyIdx(c.CI, i)) }
+func (c *ChainSt) oracleKey(w *World, i int) *Key  { return w.Key("oracle", w.Cfg.OKI(c.CI, i)) }
+func (c *ChainSt) bridgerKey(w *World, i int) *Key { return w.Key("bridger", w.Cfg.OKI(c.CI, i)) }
+func (c *ChainSt) extKey(w *World, i int) *Key     { return w.Key("ext", w.Cfg.OKI(c.CI, i)) }
 func (c *ChainSt) extAddrStr(w *World, i int) string {
 	return ExtAddrStr(c.Name, c.extKey(w, i).Hex())
 }
@@ -177,6 +177,13 @@ func (BridgeEngine) GenConfig(rng *rand.Rand, prop string, tier string) RunConfi
 		c.DelegateThresholdFX = int64([]int{100, 1000, 10_000}[rng.IntN(3)])
 		c.DelegateMultiple = int64(1 + rng.IntN(10))
 		cfg.Chains = append(cfg.Chains, c)
+	}
+	if len(cfg.Chains) > 1 && (prop == "C13" || prop == "C12" || prop == "C02" || prop == "C01" || prop == "C07") && rng.IntN(100) < 40 {
+		// one operator serves both bridges with the same oracle, bridger and external keys
+		cfg.SharedOracles = true
+		for i := range cfg.Chains {
+			cfg.Chains[i].Oracles = cfg.Chains[0].Oracles
+		}
 	}
 	rc := RunConfig{World: cfg, Steps: 60 + rng.IntN(140), Weights: map[string]int{}, Knobs: map[string]string{}}
 	if tier == "thorough" {
@@ -292,7 +299,7 @@ func (e BridgeEngine) Init(r *Run) error {
 			cs.Ext.Height = uint64(h)
 		}
 		for i := 0; i < c.Oracles*2+2; i++ {
-			cs.Oracles = append(cs.Oracles, &OracleActor{I: i, KeyIdx: OracleKeyIdx(ci, i), Stake: sdkmath.ZeroInt()})
+			cs.Oracles = append(cs.Oracles, &OracleActor{I: i, KeyIdx: r.Cfg.World.OKI(ci, i), Stake: sdkmath.ZeroInt()})
 		}
 		if c.Name == "eth" {
 			cs.Tokens = append(cs.Tokens, &TokenInfo{Symbol: "FX", Base: "FX", Contract: tokenContract(c.Name, "FX"), Kind: "fx"})
@@ -427,7 +434,7 @@ func init() {
 		if ci < 0 {
 			return nil, fmt.Errorf("chain")
 		}
-		ok, bk, ek := w.Key("oracle", OracleKeyIdx(ci, o)), w.Key("bridger", OracleKeyIdx(ci, o)), w.Key("ext", OracleKeyIdx(ci, o))
+		ok, bk, ek := w.Key("oracle", w.Cfg.OKI(ci, o)), w.Key("bridger", w.Cfg.OKI(ci, o)), w.Key("ext", w.Cfg.OKI(ci, o))
 		if t.A.Has("bridger") {
 			bk = w.KeyByName(t.A.Str("bridger"))
 		}
